@@ -75,6 +75,8 @@ type Conn struct {
 	env   *Env
 	// signed-latency bookkeeping: rounds asked for, pings issued since the request, last ping index issued
 	latN, latIssued, latLast uint32
+	stepBegan               time.Time // when the current Step started handling
+	finalPingIssuedAfter    time.Time // start of the step that issued the last ping seen
 	finalSlept              bool
 }
 
@@ -503,7 +505,13 @@ func (e *Env) encLatency(m *hagallpb.SignedLatencyResponse) []int64 {
 	if e.curConn != nil {
 		finalSlept = e.curConn.finalSlept
 	}
-	statsOK := (!finalSlept || d.Last >= 2000) && d.Min >= 0 && d.Min <= d.Mean && d.Mean <= d.Max &&
+	// the final round was slept before by the harness (>= 2 ms) and cannot have taken longer than the time between the
+	// start of the step that issued its ping and now
+	lastUpper := float32(math.MaxFloat32)
+	if finalSlept && e.curConn != nil && !e.curConn.finalPingIssuedAfter.IsZero() {
+		lastUpper = float32(time.Since(e.curConn.finalPingIssuedAfter).Microseconds() + 100)
+	}
+	statsOK := (!finalSlept || (d.Last >= 2000 && d.Last <= lastUpper)) && d.Min >= 0 && d.Min <= d.Mean && d.Mean <= d.Max &&
 		(d.P95 == 0 || (d.P95 >= d.Min && d.P95 <= d.Max)) && d.Last >= d.Min && d.Last <= d.Max
 	sigOK := false
 	if sig, err := hexutil.Decode(m.Signature); err == nil {
@@ -694,6 +702,7 @@ func (e *Env) Step(c int) {
 			time.Sleep(20 * time.Microsecond) // a measured round trip is never 0 µs
 		}
 	}
+	cn.stepBegan = time.Now()
 	err, pan := cn.vc.Handle(context.Background(), q.msg, sink{e, c})
 	verdict := 0
 	if pan != nil {
@@ -714,6 +723,7 @@ func (e *Env) Step(c int) {
 			}
 			cn.latIssued++
 			cn.latLast = uint32(d.Msg[1])
+			cn.finalPingIssuedAfter = cn.stepBegan
 		}
 	}
 	hint := int64(0)
